@@ -208,9 +208,9 @@ Proof. vm_compute. repeat split; reflexivity. Qed.
 
 (* ---------------------------------------------------------------------------------------------------------------
    The shape clause for the evaluators that were only decided per explored case (Proofs/Shape3_proofs.v,
-   Proofs/ShapeElim_proofs.v, Proofs/TidemanIndex_proofs.v). *)
+   Proofs/ShapeElim_proofs.v, Proofs/HybridTiers_proofs.v). *)
 From VL Require Model.Threshold Model.Hybrids Model.Elimination Model.ApprovalSimple Model.AllocScore Model.Quota Proofs.AllocScore_proofs Proofs.Hybrids_proofs Proofs.Shape3_proofs Proofs.ShapeElim_proofs
-     Proofs.TidemanIndex_proofs.
+     Proofs.HybridTiers_proofs.
 
 (* seatless selectors (thresholds, bracketers, Condorcet winner, Smith / Schwartz set): the right shape is a duplicate-free
    list of candidates of the votes - the declarative shape of a selection of plain winners for as many seats as it has entries *)
@@ -274,58 +274,74 @@ Proof.
   destruct (Hs Hnd ltac:(lia) ltac:(cbn; lia) ltac:(vm_compute; reflexivity)) as [Hlen _]. discriminate Hlen.
 Qed.
 
-(* Benham (with the repaired elimination step that /repo HEAD runs): on every well-formed profile (no candidate twice on a
-   ballot, no negative weight) with a pairwise contest the answer is one entry in shape - a plain candidate of the votes, or one
-   tie object of (the last) two or more of them - and the only other outcome is the declared refusal NotImplementedError *)
+(* Benham (all repairs: the elimination step refuses ties, a candidate that stands alone is elected): on every well-formed
+   profile (no candidate twice on a ballot, no negative weight) on which somebody stands the answer is one entry in shape - a plain
+   candidate of the votes, or one tie object of (the last) two or more of them - and the only other outcome is the declared refusal
+   NotImplementedError.  No hypothesis about a pairwise contest any more. *)
 Theorem C08_shape_benham : forall votes : Hybrids.rvotes,
-  Hybrids_proofs.wf_votes votes = true -> Hybrids.pairwise votes <> [] ->
-  (exists r, Hybrids.benham true votes = Hybrids.H_ok r /\ sel_shape (Hybrids_proofs.cands_of votes) 1 r) \/
-  Hybrids.benham true votes = Hybrids.H_nie.
+  Hybrids_proofs.wf_votes votes = true -> Hybrids_proofs.cands_of votes <> [] ->
+  (exists r, Hybrids.benham true true votes = Hybrids.H_ok r /\ sel_shape (Hybrids_proofs.cands_of votes) 1 r) \/
+  Hybrids.benham true true votes = Hybrids.H_nie.
 Proof.
   intros votes Hwf Hne. destruct (ShapeElim_proofs.benham_shape votes Hwf Hne) as [(r & Hr & Hn)|H]; [left|right; exact H].
   exists r. split; [exact Hr|apply Shape2_proofs.nform_shape, Hn].
 Qed.
 
-(* ... without a pairwise contest (a single candidate; every ballot one shared rank) both hybrids raise IndexError:
-   known finding C05-hybrid-empty-pairwise *)
+(* a candidate that stands alone is elected by both hybrids (repaired), for any number of seats: one entry in shape *)
+Theorem C08_shape_hybrids_single_candidate : forall (votes : Hybrids.rvotes) (c : C) (n : nat),
+  Hybrids_proofs.cands_of votes = [c] -> (1 <= n)%nat ->
+  Hybrids.benham true true votes = Hybrids.H_ok [Cand c] /\ Hybrids.tideman_alt true true true votes n = Hybrids.H_ok [Cand c] /\
+  sel_shape (Hybrids_proofs.cands_of votes) 1 [Cand c].
+Proof.
+  intros votes c n E Hn. pose proof (HybridTiers_proofs.cands_single votes c E) as EK. split; [|split].
+  - rewrite (ShapeElim_proofs.benham_single true votes c EK). reflexivity.
+  - exact (HybridTiers_proofs.tideman_single votes n c EK Hn).
+  - apply Shape2_proofs.nform_shape. apply (Shape2_proofs.nform_plain _ [c]); [constructor; [intros []|constructor]|].
+    intros x [<-|[]]. rewrite E. left. reflexivity.
+Qed.
+
+(* ... on the code without fixes/C05-hybrid-single-candidate.diff (sc = false) both raise IndexError there: finding
+   C05-hybrid-empty-pairwise (fixed) *)
 Theorem C08_shape_hybrids_single_candidate_refuted : exists votes : Hybrids.rvotes,
   Hybrids_proofs.wf_votes votes = true /\ length (Hybrids_proofs.cands_of votes) = 1%nat /\
-  Hybrids.benham true votes = Hybrids.H_index /\ Hybrids.tideman_alt true votes 1 = Hybrids.H_index.
+  Hybrids.benham true false votes = Hybrids.H_index /\ Hybrids.tideman_alt true false false votes 1 = Hybrids.H_index /\
+  Hybrids.tideman_alt true false true votes 1 = Hybrids.H_index.
 Proof. exists [([Convert.IP 1%positive], 1%Z)]. vm_compute. repeat split; reflexivity. Qed.
 
-(* Tideman alternative, one seat: one plain candidate of the votes, or the declared refusal - never IndexError / KeyError
-   (Proofs/TidemanIndex_proofs.v: an elimination without a tie leaves a pairwise contest) *)
-Theorem C08_shape_tideman : forall votes : Hybrids.rvotes,
-  Hybrids_proofs.wf_votes votes = true -> Hybrids.pairwise votes <> [] ->
-  (exists w, Hybrids.tideman_alt true votes 1 = Hybrids.H_ok [Cand w] /\ sel_shape (Hybrids_proofs.cands_of votes) 1 [Cand w]) \/
-  Hybrids.tideman_alt true votes 1 = Hybrids.H_nie.
-Proof.
-  intros votes Hwf Hne.
-  destruct (ShapeElim_proofs.tideman_outcomes votes 1 Hwf) as [(w & Hr & Hw & _)|[H|[H|(_ & Hn & _)]]].
-  - left. exists w. split; [exact Hr|]. apply Shape2_proofs.nform_shape.
-    apply (Shape2_proofs.nform_plain (Hybrids_proofs.cands_of votes) [w]); [constructor; [intros []|constructor]|intros x [<-|[]]; exact Hw].
-  - right. exact H.
-  - destruct (TidemanIndex_proofs.tideman_no_index votes 1 Hwf Hne H).
-  - congruence.
-Qed.
-
-(* ... every outcome for any number of seats: for more than one seat (another candidate standing) the only outcomes are the
-   declared refusal and the TypeError of the further tiers (RANKED_SUBSETTER.convert called without the subset): the
-   exactly-n clause is false of TidemanAlternative for n >= 2 - known finding C08-tideman-multiseat *)
+(* Tideman alternative (all repairs), EVERY number of seats n >= 1 on every well-formed profile on which somebody stands: tier by
+   tier min(n, candidates) distinct plain candidates of the votes - or the declared refusal (a tie among the candidates to
+   eliminate in some tier); never IndexError / KeyError / TypeError (Proofs/HybridTiers_proofs.v) *)
 Theorem C08_shape_tideman_outcomes : forall (votes : Hybrids.rvotes) (n : nat),
-  Hybrids_proofs.wf_votes votes = true -> Hybrids.pairwise votes <> [] ->
-  (exists w, Hybrids.tideman_alt true votes n = Hybrids.H_ok [Cand w] /\ In w (Hybrids_proofs.cands_of votes) /\
-             (n = 1%nat \/ ShapeElim_proofs.one_candidate votes w)) \/
-  Hybrids.tideman_alt true votes n = Hybrids.H_nie \/
-  (Hybrids.tideman_alt true votes n = Hybrids.H_type /\ n <> 1%nat /\ (2 <= length (Hybrids_proofs.cands_of votes))%nat).
+  Hybrids_proofs.wf_votes votes = true -> Hybrids_proofs.cands_of votes <> [] -> (1 <= n)%nat ->
+  (exists ws, Hybrids.tideman_alt true true true votes n = Hybrids.H_ok (map Cand ws) /\ NoDup ws /\
+              incl ws (Hybrids_proofs.cands_of votes) /\ length ws = Nat.min n (length (Hybrids_proofs.cands_of votes))) \/
+  Hybrids.tideman_alt true true true votes n = Hybrids.H_nie.
 Proof.
-  intros votes n Hwf Hne. destruct (ShapeElim_proofs.tideman_outcomes votes n Hwf) as [H|[H|[H|H]]]; [left; exact H|right; left; exact H| |right; right; exact H].
-  destruct (TidemanIndex_proofs.tideman_no_index votes n Hwf Hne H).
+  intros votes n Hwf Hne Hn. destruct (HybridTiers_proofs.tideman_tiers votes n Hwf Hne Hn) as [(ws & E & H1 & H2 & H3 & _)|E]; [left|right; exact E].
+  exists ws. auto.
 Qed.
 
+(* hence the shape clause as the property states it: 1 <= n <= candidates present -> exactly n entries in shape (no tie object) *)
+Theorem C08_shape_tideman : forall (votes : Hybrids.rvotes) (n : nat),
+  Hybrids_proofs.wf_votes votes = true -> (1 <= n <= length (Hybrids_proofs.cands_of votes))%nat ->
+  (exists r, Hybrids.tideman_alt true true true votes n = Hybrids.H_ok r /\ sel_shape (Hybrids_proofs.cands_of votes) n r /\ ties_of r = []) \/
+  Hybrids.tideman_alt true true true votes n = Hybrids.H_nie.
+Proof.
+  intros votes n Hwf [Hn1 Hn2].
+  assert (Hne : Hybrids_proofs.cands_of votes <> []) by (intros E; rewrite E in Hn2; cbn in Hn2; lia).
+  destruct (C08_shape_tideman_outcomes votes n Hwf Hne Hn1) as [(ws & E & Hnd & Hi & Hl)|E]; [left|right; exact E].
+  exists (map Cand ws). split; [exact E|]. split; [|apply ties_of_cands].
+  rewrite Nat.min_l in Hl by exact Hn2. rewrite <- Hl. apply Shape2_proofs.nform_shape, Shape2_proofs.nform_plain; assumption.
+Qed.
+
+(* ... on the code without fixes/C05-tideman-tiers.diff (tr = false) every call for two seats with two candidates ends in
+   TypeError: finding C08-tideman-multiseat (fixed); with the tiers repaired but not the single candidate (sc = false) the last
+   tier - one candidate left - raises IndexError *)
 Theorem C08_shape_tideman_multiseat_refuted : exists votes : Hybrids.rvotes,
   Hybrids_proofs.wf_votes votes = true /\ length (Hybrids_proofs.cands_of votes) = 2%nat /\
-  Hybrids.tideman_alt true votes 2 = Hybrids.H_type.
+  Hybrids.tideman_alt true false false votes 2 = Hybrids.H_type /\ Hybrids.tideman_alt true true false votes 2 = Hybrids.H_type /\
+  Hybrids.tideman_alt true false true votes 2 = Hybrids.H_index /\
+  Hybrids.tideman_alt true true true votes 2 = Hybrids.H_ok [Cand 1%positive; Cand 2%positive].
 Proof. exists [([Convert.IP 1%positive; Convert.IP 2%positive], 2%Z); ([Convert.IP 2%positive; Convert.IP 1%positive], 1%Z)]. vm_compute. repeat split; reflexivity. Qed.
 
 (* Baldwin (Model/Elimination.v), any rank scorer: on every profile without a candidate twice on a ballot and without an empty
@@ -377,7 +393,9 @@ Example C08_shape_example_elimination :
                              ([Convert.IS [1; 2]%positive; ip 4%positive], 1%Z)] in
   let t : Hybrids.rvotes := [b [1; 2; 3]%positive 1%Z; b [1; 3; 2]%positive 1%Z] in
   Hybrids_proofs.wf_votes v = true /\ ShapeElim_proofs.ranks_ok v = true /\ Hybrids.pairwise v <> [] /\
-  Hybrids.benham true v = Hybrids.H_ok [Cand 1%positive] /\ Hybrids.tideman_alt true v 1 = Hybrids.H_ok [Cand 1%positive] /\
+  Hybrids.benham true true v = Hybrids.H_ok [Cand 1%positive] /\ Hybrids.tideman_alt true true true v 1 = Hybrids.H_ok [Cand 1%positive] /\
+  Hybrids.tideman_alt true true true v 3 = Hybrids.H_ok [Cand 1; Cand 2; Cand 3]%positive /\
+  Hybrids.tideman_alt true true true v 9 = Hybrids.H_ok [Cand 1; Cand 2; Cand 3; Cand 4]%positive /\
   Elimination.baldwin (Convert.Borda 0) v 2 = Elimination.B_ok [Cand 2; Cand 1]%positive /\
   Elimination.baldwin (Convert.Borda 0) t 2 = Elimination.B_ok [Cand 1%positive; TieR [2; 3]%positive] /\
   Elimination.baldwin (Convert.Borda 0) t 1 = Elimination.B_ok [Cand 1%positive] /\
@@ -413,9 +431,10 @@ Print Assumptions C08_shape_openlist.
 Print Assumptions C08_shape_quota_selector_partial.
 Print Assumptions C08_shape_quota_selector_refuted.
 Print Assumptions C08_shape_benham.
+Print Assumptions C08_shape_hybrids_single_candidate.
 Print Assumptions C08_shape_hybrids_single_candidate_refuted.
-Print Assumptions C08_shape_tideman.
 Print Assumptions C08_shape_tideman_outcomes.
+Print Assumptions C08_shape_tideman.
 Print Assumptions C08_shape_tideman_multiseat_refuted.
 Print Assumptions C08_shape_baldwin.
 Print Assumptions C08_shape_positional.
